@@ -253,7 +253,44 @@ int main(int argc, char** argv) {
     vf::init(argc, argv, "C12");
     vf::Property<Case> p;
     p.name = "mmio_history";
-    p.gen = [] { return rc::gen::container<Case>(genOp()); };
+    // half of the histories concentrate on one peripheral (the documented couplings need several writes to the same block: e.g.
+    // start value, configuration with restart, mirror, event write), with configuration values built from the documented fields
+    p.gen = [] {
+        using namespace rc;
+        return gen::map(gen::tuple(gen::container<Case>(genOp()), vf::range<unsigned>(0, 20), gen::resize(100, gen::arbitrary<uint64_t>())),
+                        [](std::tuple<Case, unsigned, uint64_t> t) {
+                            Case c = std::get<0>(t);
+                            unsigned focus = std::get<1>(t);
+                            if (focus >= 10)
+                                return c; // unfocused
+                            static const std::vector<std::vector<uint16_t>> groups = {
+                                {0x20, 0x22, 0x24, 0x26, 0x28, 0x2A, 0x20, 0x22},
+                                {0x30, 0x32, 0x34, 0x36, 0x38, 0x3A, 0x30, 0x32},
+                                {0x0C0, 0x0C2, 0x0C4, 0x0C6, 0x0C8, 0x0CA, 0x0CC, 0x0CE, 0x0D0, 0x0D2, 0x0D4, 0x0D6, 0x0D8},
+                                {0x0E0, 0x0E2, 0x0E4, 0x0E6, 0x0E8, 0x0EA, 0x0EC, 0x0EE, 0x0F0, 0x0F2},
+                                {0x10E, 0x110, 0x112, 0x114, 0x116, 0x11A, 0x11E},
+                                {0x184, 0x18C, 0x1BE, 0x1C0, 0x1C4, 0x1C8, 0x1CA, 0x1CC, 0x1DA, 0x1DC, 0x1BE, 0x1DA},
+                                {0x200, 0x202, 0x204, 0x206, 0x208, 0x20A, 0x20C, 0x212, 0x214, 0x24E, 0x250},
+                                {0x2A2, 0x2BE, 0x2C2, 0x2C6, 0x2CA, 0x2C6, 0x2BE},
+                                {0x322, 0x33E, 0x342, 0x346, 0x34A, 0x346, 0x33E},
+                                {0x20, 0x30, 0x0D4, 0x0CE, 0x1BE, 0x1DA, 0x11E, 0x2BE, 0x2CA},
+                            };
+                            vf::Stream s(std::get<2>(t));
+                            const auto& g = groups[focus];
+                            for (auto& op : c) {
+                                if (op.kind != Write || !s.chance(7, 10))
+                                    continue;
+                                op.off = g[s.below(g.size())];
+                                if (op.off == 0x20 || op.off == 0x30) // timer configuration: CM, PC, MU, RES from the documented fields
+                                    op.v = (uint16_t)((s.below(4) << 2) | (s.chance(1, 5) ? 0x0100 : 0) | (s.bits(1) << 9) | (s.bits(1) << 10));
+                                else if (op.off == 0x24 || op.off == 0x34 || op.off == 0x22 || op.off == 0x32)
+                                    op.v = (uint16_t)s.below(6);
+                                else if (op.off == 0x26 || op.off == 0x36)
+                                    op.v = (uint16_t)s.below(2);
+                            }
+                            return c;
+                        });
+    };
     p.check = check;
     p.encode = encode;
     p.decode = decode;
